@@ -375,3 +375,62 @@ def r9_6(rep):
     allb = rep.need(prog.fn("ir::traversal::all_edges"), "traversal::all_edges")
     t = strip(allb.root.get("tail") or {})
     rep.check(t.get("k") == "Lit" and t.get("v") is True, "all-edges-true", "all_edges accepts every edge", allb.loc(allb.root))
+
+
+@RULES.rule("R9.7", "the item traversal visits everything reachable: roots queued, every popped item traced, every accepted new edge queued", floor=8)
+def r9_7(rep):
+    """The transitive closure is computed by ItemTraversal: `new` seeds the queue with every root, `next` traces every
+    item it pops and yields it, and the Tracer impl queues every item that passes the predicate and was not seen.
+    Breaks: tracing only when `currently_traversing` is none, or pushing to the queue only for some edge kinds, leaves
+    transitively needed types out of the allowlisted set (the output no longer compiles on its own)."""
+    prog = rep.prog
+    IT = "ir::traversal::ItemTraversal"
+    nb = nxt = vk = None
+    for p, b in prog.bodies.items():
+        s = b.fact.get("impl_self") or ""
+        if not s.startswith(IT):
+            continue
+        if b.fact.get("impl_trait") == "std::iter::Iterator" and p.endswith("::next"):
+            nxt = b
+        elif b.fact.get("impl_trait") == tg.TRACER and p.endswith("::visit_kind"):
+            vk = b
+        elif b.fact.get("impl_trait") is None and p.endswith("::new"):
+            nb = b
+    rep.need(nb and nxt and vk, "ItemTraversal::{new, next} and its Tracer impl")
+    # new: every root is marked seen and queued
+    loops = [n for n in nb.walk() if n["k"] == "For" and "param:roots" in nb.canon(n["iter"], 4)]
+    if rep.check(len(loops) == 1, "new:roots-loop", "one loop over the roots", nb.loc(nb.root)):
+        lp = loops[0]
+        pushes = [c for c in nb.calls(lambda n: n["k"] == "MCall" and n["name"] in ("push", "push_back"), lp["body"])]
+        adds = [c for c in nb.calls(lambda n: n["k"] == "MCall" and n["name"] == "add", lp["body"])]
+        rep.check(len(pushes) == 1 and not [g for g in nb.guards(pushes[0]) if g not in nb.guards(lp)] and
+                  strip(pushes[0]["args"][0]).get("id") == lp["pat"].get("id"), "new:every-root-queued", "every root is pushed onto the queue", nb.loc(lp))
+        rep.check(len(adds) == 1 and not [g for g in nb.guards(adds[0]) if g not in nb.guards(lp)], "new:every-root-seen", "every root is marked as seen", nb.loc(lp))
+        rep.check(not re.search(r"::(skip|take|filter|step_by)\(", nb.canon(lp["iter"], 6)), "new:all-roots", "the loop covers all roots", nb.loc(lp))
+    # next: pops, traces unconditionally, yields the popped id
+    traces = [c for c in nxt.calls(lambda n: n["k"] == "MCall" and n.get("trait") == tg.TRACE_TRAIT)]
+    if rep.check(len(traces) == 1, "next:traces", "one Trace::trace call in next()", nxt.loc(nxt.root)):
+        t = traces[0]
+        src = nxt.canon(t["recv"], 6)
+        guards = [a for a, p, n in __import__("qq").guard_atoms(nxt, t) if "debug_assert" not in a]
+        only_pop = all("queue" in a or "TraversalQueue::next" in a for a in guards)
+        rep.check("TraversalQueue::next" in src or "queue" in src, "next:traces-popped-item", "the traced item is the one popped from the queue (%s)" % src[:80], nxt.loc(t))
+        rep.check(only_pop, "next:trace-unconditional", "every popped item is traced (conditions: %s)" % guards, nxt.loc(t))
+        rep.check(strip(t["args"][1]).get("name") == "self" if len(t["args"]) > 1 else False, "next:traces-into-self", "edges are reported to this traversal", nxt.loc(t))
+        tail = strip(nxt.root.get("tail") or {})
+        rep.check(tail.get("k") == "Call" and (tail.get("ctor") or "").endswith("Some") and nxt.canon(tail["args"][0], 6) == src, "next:yields-popped-item",
+                  "next() yields the popped item", nxt.loc(nxt.root))
+    # visit_kind: predicate gate, then queue iff newly seen
+    pushes = [c for c in vk.calls(lambda n: n["k"] == "MCall" and n["name"] in ("push", "push_back"))]
+    if rep.check(len(pushes) == 1, "visit:queues", "one queue push in visit_kind", vk.loc(vk.root)):
+        c = pushes[0]
+        atoms = __import__("qq").guard_atoms(vk, c)
+        pred = [a for a, p, n in atoms if "predicate" in a and p]
+        seen = [a for a, p, n in atoms if "TraversalStorage::add" in a and p]
+        rep.check(len(atoms) == 2 and len(pred) == 1 and len(seen) == 1, "visit:queue-iff-accepted-and-new",
+                  "an edge target is queued exactly when the predicate accepts the edge and the item was not seen before (conditions: %s)" %
+                  [(a[:60], p) for a, p, n in atoms], vk.loc(c))
+        rep.check(strip(c["args"][0]).get("name") == vk.params[1].get("name") if len(vk.params) > 1 else False, "visit:queues-target", "the queued item is the edge target", vk.loc(c))
+        edge = [x for x in vk.calls(lambda n: n["k"] == "Call" and (n.get("callee") or "").endswith("Edge::new"))]
+        rep.check(bool(edge) and [strip(a).get("name") for a in edge[0]["args"]] == [p.get("name") for p in vk.params[1:3]], "visit:edge-passed-to-predicate",
+                  "the predicate sees (target, kind) of this very edge", vk.loc(vk.root))
